@@ -7,6 +7,7 @@
     clientlist <hex>                           readClientList
     mdnsops <cap> <ops>                        a:<addr>:<name> (ingest) | x (removeOldestEntry) | r:<key>:<value> (removeEntry on addrs)
     mdnspkt <cap> <packets>                    packets through MDNS.read (cap = the code's mdnsMaxEntries)
+    mdnsflood <cap> <n>                        one packet with n distinct hosts, then one late announcement → table sizes
   Lists: `-` = empty, elements joined by `,`, element = lowercase hex, `_` = empty string.
   Tables: `-` = empty, `key:v,v;key:v` sorted by key (bytewise).
 -/
@@ -161,6 +162,20 @@ def stepDiscovery (toks : List String) : Option String :=
       -- Go visits the entries of one packet in random map order: the generator only emits
       -- multi-entry packets where the order cannot matter; the driver double-checks that
       if o1 = mdnsOut bwd single then some o1 else some "order-dependent"
+    | _, _ => some "bad-op"
+  | ["mdnsflood", cap, ns] =>
+    -- ONE packet announcing n distinct hosts (n may exceed the cap), then a single late announcement: which of the
+    -- flood's names survive depends on Go's map order, the SIZE of the table does not (NV.C18.mdns_cap), and the late
+    -- announcement is always learned; the reader must still be alive to learn it
+    match cap.toNat?, ns.toNat? with
+    | some c, some n =>
+      if c ≠ Gen.mdnsMaxEntries then some "cap-differs-from-translator" else
+      if n = 0 ∨ n > 2000 then some "bad-op" else
+      let ent (i : Nat) : Str × Str :=
+        (s!"10.{i / 65536}.{(i / 256) % 256}.{i % 256}".toUTF8.toList, s!"h{i}.local.".toUTF8.toList)
+      let flood := (List.range n).map ent
+      let st := ingestPacket c (ingestPacket c {} flood) [("10.250.250.250".toUTF8.toList, "late.local.".toUTF8.toList)]
+      some s!"size={st.names.length} addrs={st.addrs.length} late={if (st.names.any fun p => p.1 == "late.local.".toUTF8.toList) then 1 else 0}"
     | _, _ => some "bad-op"
   | _ => none
 
